@@ -25,7 +25,7 @@ type concArg struct {
 	Clients  [][]fsx.Op `json:"clients"`
 	ICacheSz uint64     `json:"icachesz,omitempty"`
 	Probe    *fsx.Probe `json:"probe,omitempty"`
-	NoLin    bool       `json:"nolin,omitempty"` // C14 race build: skip the oracles that are not needed
+	NoLin    bool       `json:"nolin,omitempty"`  // C14 race build: skip the oracles that are not needed
 	NShard   uint64     `json:"nshard,omitempty"` // lockmap.NSHARD for this run (0: the scaled default 13)
 }
 
@@ -78,6 +78,9 @@ func concHarness(raw json.RawMessage, cfg vrt.Config) (vrt.Result, Outcome) {
 		lockmap.NSHARD = a.NShard
 	}
 	defer func() { fstxn.ICACHESZ = saved; lockmap.NSHARD = savedShard }()
+	if cfg.Horizon == 0 {
+		cfg.Horizon = 400_000 // the default executions have a few thousand scheduling points: more is a retry loop that never ends
+	}
 	res := vrt.Run(cfg, func() {
 		w := NewWorld(base)
 		w.Disk.Record = false
@@ -297,6 +300,10 @@ func concHarnesses() []concArg {
 			{{K: "REMOVE", H: "root", N: "big"}}, {{K: "CREATE", H: "root", N: "c"}}, {{K: "CREATE", H: "root", N: "e"}}}},
 		{Name: "stale-dir-handle-reuse", DiskSize: 3000, Setup: []fsx.Op{{K: "MKDIR", H: "root", N: "d"}, {K: "RMDIR", H: "root", N: "d"}, {K: "RESTART"}}, Clients: [][]fsx.Op{
 			{{K: "MKDIR", H: "root", N: "d2"}}, {{K: "CREATE", H: "dead:root/d", N: "x"}, {K: "LOOKUP", H: "root", N: "d2"}}, {{K: "GETATTR", H: "dead:root/d"}, {K: "READDIR", H: "root", Cnt: 1 << 20}}}},
+		{Name: "rename-over-rename-create", DiskSize: 3000, Setup: []fsx.Op{{K: "CREATE", H: "root", N: "a"}, {K: "CREATE", H: "root", N: "b"}}, Clients: [][]fsx.Op{
+			{{K: "RENAME", H: "root", N: "a", H2: "root", N2: "b"}}, {{K: "RENAME", H: "root", N: "b", H2: "root", N2: "c"}, {K: "CREATE", H: "root", N: "b", As: "b2"}}}},
+		{Name: "shrinkhelp-write-remove-create", DiskSize: 3000, Probe: bigProbe, Setup: []fsx.Op{{K: "CREATE", H: "root", N: "big"}, {K: "WRITE", H: "root/big", Off: 600 * 4096, Cnt: 1, Pat: 0x31, Stable: 2}, {K: "RESTART"}}, Clients: [][]fsx.Op{
+			{{K: "SETATTR", H: "root/big", Size: 0}}, {{K: "WRITE", H: "root/big", Off: 0, Cnt: 4, Pat: 0x57, Stable: 2}}, {{K: "REMOVE", H: "root", N: "big"}, {K: "CREATE", H: "root", N: "y"}}}},
 		{Name: "mkdir-rmdir-renamedir", DiskSize: 3000, Setup: []fsx.Op{{K: "MKDIR", H: "root", N: "d"}, {K: "MKDIR", H: "root", N: "e"}}, Clients: [][]fsx.Op{
 			{{K: "MKDIR", H: "root/d", N: "sub"}}, {{K: "RMDIR", H: "root", N: "d"}}, {{K: "RENAME", H: "root", N: "e", H2: "root", N2: "d"}}}},
 		{Name: "symlink-readlink-remove", DiskSize: 3000, Setup: []fsx.Op{{K: "SYMLINK", H: "root", N: "s", Target: "old-target"}}, Clients: [][]fsx.Op{
